@@ -26,12 +26,16 @@ model/DrawCutTie.v's executable CutFinal (between two frames: the full final-sta
 against the last complete frame)."""
 from __future__ import annotations
 
+import sys
+import threading
+
 import core
 import lexer
 import renderlib as R
+from props import c06_tty as TTY
 
 LEVEL = "proof"
-EXTRA_TARGETS = ["model/DrawTie.vo", "model/DrawEnv.vo", "model/DrawCutTie.vo"]
+EXTRA_TARGETS = ["model/DrawTie.vo", "model/DrawEnv.vo", "model/DrawCutTie.vo", "model/DrawQueryTie.vo"]
 HEADER = ("From Coq Require Import List ZArith.\nImport ListNotations.\n"
           "From TI Require Import lib.Term lib.RectCheck model.Padding model.Draw model.DrawTie model.DrawEnv "
           "model.DrawCut model.DrawCutTie.\nOpen Scope Z_scope.\n")
@@ -577,8 +581,11 @@ def failure_class(c, r):
 
 def run(ctx):
     rng = ctx.rng
+    tty_cases = []
     if ctx.replay:
         cases = [ctx.replay["replay"]["case"]]
+        if cases[0].get("term_io"):
+            tty_cases, cases = cases, []
     else:
         n = 100 if ctx.quick else 2500
         cases = corpus() + real_term_grid(ctx.quick) + cut_corpus(ctx.quick)
@@ -588,7 +595,20 @@ def run(ctx):
             cases.append(gen_real(rng))
         for _ in range(40 if ctx.quick else 1500):
             cases.append(gen_cut(rng))
+        # draws that talk to the terminal (fresh process per case, the harness answers the queries)
+        tty_cases = TTY.corpus(ctx.quick) + [TTY.gen(rng, sys.modules[__name__]) for _ in range(14 if ctx.quick else 700)]
     import time
+    tty_res = {}
+
+    def tty_family():
+        try:
+            tty_res.update(TTY.run(sys.modules[__name__], tty_cases, ctx.quick))
+        except Exception:
+            import traceback
+            tty_res["errors"] = ["tty family crashed: " + traceback.format_exc()[-1500:]]
+
+    tty_thread = threading.Thread(target=tty_family)
+    tty_thread.start()
     t_start = time.time()
     impl = core.run_impl_parallel("impl_c06.py", cases)
     t_impl = time.time() - t_start
@@ -697,9 +717,15 @@ def run(ctx):
                     "replay": {"case": c, "seen_terminal_size": r.get("seen"), "output": r.get("out", "")[:3000]}})
             else:
                 mismatches.append({"case": c, "code": code, "explain": explain(c, r) if len(mismatches) < 3 else ""})
+    tty_thread.join()
+    failures += tty_res.get("failures", [])
+    mismatches += tty_res.get("mismatches", [])
+    errors += tty_res.get("errors", [])
+    hist["terminal_answers_queries"] = tty_res.get("hist", {})
+    distinct |= tty_res.get("distinct", set())
     return {
         "corr_name": "Draw.draw_stream / Draw.old_draw_stream, in the environment's terminal size (DrawEnv.get_terminal_size), and DrawCut.anim_cut / old_anim_cut for animations ended by KeyboardInterrupt (models) == bytes written by Renderable.draw / BaseImage.draw on a pty or StringIO",
-        "evaluations": len(cases),
+        "evaluations": len(cases) + len(tty_cases),
         "distinct_nontrivial": len(distinct),
         "rule": "REAL-TERMINAL cases (the library's own get_terminal_size() on a pty whose window is set with TIOCSWINSZ, COLUMNS / LINES absent / equal / larger / smaller "
                 "/ only one / garbage / zero): grid of both APIs x {still, animated} x padded or rendered width / height at window-1, window, window+1 under each relation, "
@@ -735,5 +761,6 @@ def run(ctx):
                         "interrupted animations: the interrupt is a KeyboardInterrupt raised by the k-th non-empty stream write of the animation after j characters were delivered, or by a sleep between two frames (positions between two bytecodes of other code are C07's asyncfault dimension); the instrumented renderable's _handle_interrupted_draw_ writes CSI 0 m (HndOK); the final row is judged on Term.exec's virtual rows (a clamped cursor-down at the bottom margin of a real screen is not modelled: the scrolling clause is demanded only when the cursor was found on its resting row after a complete first frame)",
                         "the new API's documented residue (cursor not hidden, a cursor-move write cut inside its CSI, no cursor-down following) may leave an open CSI (C07's new_ctl_cut_residue); never an open string"],
         "trusted": ["harness/lexer.py", "pty line discipline with OPOST off delivers the written bytes unchanged"],
-        "extra": {"seconds_impl": round(t_impl, 1), "seconds_coq_eval": round(t_coq, 1)},
+        "extra": {"seconds_impl": round(t_impl, 1), "seconds_coq_eval": round(t_coq, 1),
+                  "seconds_tty_family_impl": tty_res.get("seconds_impl"), "seconds_tty_family_coq_eval": tty_res.get("seconds_coq")},
     }
